@@ -12,6 +12,7 @@ def schemas(k):
         "int5": (pk.PackIntMod(5), [5]),
         "int8": (pk.PackIntMod(8), [8]),
         "int17": (pk.PackIntMod((1 << n) + 1), [(1 << n) + 1]),
+        "int64": (pk.PackIntMod(1 << 64), [1 << 64]),        # wider than a float's 53-bit mantissa
         "list_b_i3": (pk.PackList([pk.PackBool(), pk.PackIntMod(3)]), ["b", 3]),
         "rep_i3x2": (pk.PackRepeat(pk.PackIntMod(3), 2), [3, 3]),
         "list_i5_repb2": (pk.PackList([pk.PackIntMod(5), pk.PackRepeat(pk.PackBool(), 2)]), [5, "b", "b"]),
@@ -20,10 +21,10 @@ def schemas(k):
 
 SHAPES = {   # how the flat leaves v0.. are arranged into the structured value
     "bool": lambda v: v[0], "int2": lambda v: v[0], "int3": lambda v: v[0], "int5": lambda v: v[0], "int8": lambda v: v[0],
-    "int17": lambda v: v[0], "list_b_i3": lambda v: [v[0], v[1]], "rep_i3x2": lambda v: [v[0], v[1]],
+    "int17": lambda v: v[0], "int64": lambda v: v[0], "list_b_i3": lambda v: [v[0], v[1]], "rep_i3x2": lambda v: [v[0], v[1]],
     "list_i5_repb2": lambda v: [v[0], [v[1], v[2]]], "rep_list_x2": lambda v: [[v[0], v[1]], [v[2], v[3]]],
 }
-NLEAVES = {"bool": 1, "int2": 1, "int3": 1, "int5": 1, "int8": 1, "int17": 1, "list_b_i3": 2, "rep_i3x2": 2,
+NLEAVES = {"int64": 1, "bool": 1, "int2": 1, "int3": 1, "int5": 1, "int8": 1, "int17": 1, "list_b_i3": 2, "rep_i3x2": 2,
            "list_i5_repb2": 3, "rep_list_x2": 4}
 
 
@@ -129,7 +130,7 @@ def build(n=4, tier="quick"):
         if "pow" in e.tags:
             continue             # operand reuse after a secret-exponent power belongs to C05
         ents.append(e)
-    names = list(SHAPES) if tier != "quick" else ["bool", "int3", "int5", "int8", "int17", "list_b_i3", "rep_i3x2", "list_i5_repb2"]
+    names = list(SHAPES) if tier != "quick" else ["bool", "int3", "int5", "int8", "int17", "int64", "list_b_i3", "rep_i3x2", "list_i5_repb2"]
     for nm in names:
         ins = tuple("v%d" % i for i in range(NLEAVES[nm]))
         ents.append(Entry("pack_plain_" + nm, plain_roundtrip(nm), ins, ref=plain_ref(nm),
